@@ -115,7 +115,8 @@ SRC_SPECS = [
          state=['self._mu_quads', 'self._wi_quads']),
 ]
 
-USES_MODELS = ['C04']      # Interp.computeOpacity: the table look-up behind every layer's opacity
+USES_MODELS = ['C04', 'C20']      # Interp.computeOpacity: the table look-up behind every layer's opacity; KTau.emissionK: the
+#                                   emission integral of the correlated-k opacity mode
 
 RULE = ('real EmissionModel/DirectImageModel, 1-40 layers, 1-12 wavenumbers, ngauss 1-8, temperature profile in '
         '{isothermal, decreasing, inverted, random, two-level}, 1-3 active gases with in-memory tables whose magnitude '
@@ -126,7 +127,12 @@ RULE = ('real EmissionModel/DirectImageModel, 1-40 layers, 1-12 wavenumbers, nga
         'documented integral over THOSE opacities, with a fixed quota (every 7th case) of atmospheres whose upper or lower '
         'layers leave the table on both axes (the four (T, P) corners); '
         'distinct non-trivial = distinct (kind, nlayers, ngauss, T-profile class, opacity regime, cia, clamp pattern) '
-        'with at least one column neither transparent nor saturated')
+        'with at least one column neither transparent nor saturated; plus a correlated-k stream (opacity_method = ktables: '
+        'pickle k-tables with 1-12 g-points, 1-2 molecules, optional CIA before / after the molecular absorption, emission and '
+        'direct image, T-profile class x opacity class in {mid, mixed, saturated, and three classes in which the g-weighted '
+        'transmittance of the whole column UNDERFLOWS to exactly zero: at every emission angle, at the most inclined angles '
+        'only, at some wavenumbers only - the tables are scaled after a probing run so that the weakest g-point has the drawn '
+        'optical depth}) judged against KTau.emissionK (driver_c20) and the documented integral in k form')
 ASSUMPTIONS = ['the opacity of a layer is the tabulated cross-section at the layer (T, P) - bilinear in (T, log10 P), held at the '
                'nearest edge node outside the table, zero below both minima (the statement of C04, model Interp.computeOpacity '
                'served by driver_c04) - times the mixing ratio, summed over the active gases (all tables of a case share the '
@@ -622,6 +628,192 @@ def predicates(ctx, c, o, ref, small, kp=''):
                           case, dict(ratio=ratio, saturated=sat))
 
 
+# ------------------------------------------------------------------------------------------- correlated-k opacity mode
+# `[Global] opacity_method = ktables`: the molecular absorption enters as k-coefficients on g-points; the transmittance of a
+# column is the g-weighted mean of exp(-tau_g / mu).  Real EmissionModel / DirectImageModel objects on k-table files written to
+# a scratch directory; judged against KTau.emissionK (driver_c20) and the documented integral evaluated with numpy.
+KCLASSES = ['underflow-all-angles', 'mid', 'underflow-some-angles', 'mixed', 'underflow-per-wavenumber', 'saturated']
+KTCLASSES = ['isothermal', 'decreasing', 'inverted', 'random']
+UNDERFLOW = 745.0          # exp(-x) is exactly 0.0 in double precision beyond x ~ 745.13
+
+
+def gen_kcase(rng, k):
+    kclass = KCLASSES[k % len(KCLASSES)]
+    tclass = KTCLASSES[(k // len(KCLASSES)) % len(KTCLASSES)]
+    kind = 'direct' if k % 5 == 4 else 'emission'
+    nl = int(rng.integers(1, 16))
+    nwn = int(rng.integers(2 if kclass == 'underflow-per-wavenumber' else 1, 6))
+    wn = np.sort(rng.choice(np.arange(200.0, 12000.0, 13.0), size=nwn, replace=False))
+    ng = int(rng.integers(1, 13)) if rng.random() < 0.8 else 1
+    w = rng.random(ng) + 0.02
+    if ng > 2 and rng.random() < 0.2:
+        w[int(rng.integers(0, ng))] = 0.0
+    w = w / w.sum()
+    if tclass == 'isothermal':
+        T = float(rng.uniform(300, 2800))
+    else:
+        a = rng.uniform(300, 2800, size=nl)
+        a = np.sort(a)[::-1] if tclass == 'decreasing' else np.sort(a) if tclass == 'inverted' else a
+        T = [float(x) for x in a]
+    names = [str(x) for x in rng.choice(MOLS, size=int(rng.integers(1, 3)), replace=False)]
+    gases, tables = {}, {}
+    for nm in names:
+        nT, nP = int(rng.integers(2, 4)), int(rng.integers(2, 4))
+        tg = np.sort(rng.choice(np.arange(100.0, 3500.0, 50.0), size=nT, replace=False))
+        pg = 10 ** np.sort(rng.choice(np.linspace(-8, 2, 41), size=nP, replace=False))
+        e = {'mid': rng.uniform(-25.5, -21, size=nwn), 'saturated': rng.uniform(-18, -12, size=nwn),
+             'mixed': rng.uniform(-30, -14, size=nwn)}.get(kclass, rng.uniform(-23, -21, size=nwn))
+        base = 10 ** (e[None, None, :] + rng.uniform(-0.3, 0.3, size=(nP, nT, nwn)))
+        spread = np.sort(rng.uniform(0.0, 3.0 if kclass.startswith('underflow') else 5.0, size=(nP, nT, nwn, ng)), axis=-1)
+        gases[nm] = float(10 ** rng.uniform(-5, -2))
+        tables[nm] = dict(tg=tg, pg=pg, kcoeff=base[..., None] * 10 ** spread)
+    cia = None
+    if rng.random() < 0.3:
+        pair = 'H2-He' if rng.random() < 0.5 else 'H2-H2'
+        ctg = np.sort(rng.choice(np.arange(100.0, 3500.0, 100.0), size=3, replace=False))
+        ce = {'mid': -54, 'mixed': -54, 'saturated': -46}.get(kclass, -60)
+        cia = dict(pair=pair, tg=ctg, tab=10 ** (ce + rng.uniform(-2, 2, size=(3, nwn))))
+    ngauss = int(rng.integers(2 if kclass == 'underflow-some-angles' else 1, 9))
+    spec = dict(mp=float(rng.uniform(0.3, 5)), rp=float(rng.uniform(0.5, 1.6)), ts=float(rng.uniform(3000, 9000)),
+                rs=float(rng.uniform(0.3, 2.0)), dist=float(10 ** rng.uniform(-0.5, 2.5)), nlayers=nl,
+                pmin=float(10 ** rng.uniform(-3, 1)), pmax=float(10 ** rng.uniform(4, 7)), T=T, gases=gases,
+                ngauss=ngauss, cia=[cia['pair']] if cia else [], cia_first=bool(cia is not None and k % 2 == 0))
+    c = dict(mode='ktables', kind=kind, kclass=kclass, tclass=tclass, spec=spec, wn=wn, tables=tables, weights=w, cia=cia)
+    if kclass.startswith('underflow'):
+        # where the weakest g-point of the whole column is to end up (vertical optical depth at the surface, per wavenumber);
+        # the tables are scaled to it by prepare_kcase once the column of the atmosphere is known
+        mus = (np.polynomial.legendre.leggauss(ngauss)[0] + 1) / 2
+        if kclass == 'underflow-all-angles':
+            tgt = 10 ** rng.uniform(3.0, 7.0, size=nwn)
+        elif kclass == 'underflow-some-angles':
+            lo, hi = 1.05 * UNDERFLOW * mus.min(), 0.95 * UNDERFLOW * mus.max()
+            tgt = rng.uniform(lo, hi, size=nwn) if lo < hi else np.full(nwn, 0.5 * UNDERFLOW * (mus.min() + mus.max()))
+        else:
+            tgt = np.where(np.arange(nwn) % 2 == int(rng.integers(0, 2)), 10 ** rng.uniform(3.0, 6.0, size=nwn),
+                           10 ** rng.uniform(-1.0, 1.5, size=nwn))
+        c['target_weakest_tau'] = tgt
+    return c
+
+
+def k_elements(ok, w):
+    """per layer / wavenumber / g-point optical-depth elements of the molecular absorption, those of the other contributions,
+    and the vertical optical depth of the whole column seen by the weakest g-point (weights > 0)"""
+    dzd = (ok['dz'] * ok['dens'])[:, None, None]
+    kel = ok['sigma_abs'] * dzd
+    nel = E.layer_elements(ok['nonmol'], ok['dz'], ok['dens']) if ok['nonmol'] else np.zeros(kel.shape[:2])
+    weakest = kel.sum(axis=0)[:, np.asarray(w) > 0].min(axis=1)
+    return kel, nel, weakest
+
+
+def prepare_kcase(c, scratch):
+    """scale the k-tables of an `underflow-*` case (all molecules, per wavenumber) so that the weakest g-point of the column
+    has the drawn vertical optical depth; one probing run of the real model gives the column (linear table interpolation:
+    the opacities scale with the tables).  The stored case holds the scaled tables: replaying it needs no probe."""
+    if c.get('target_weakest_tau') is None or c.get('prepared'):
+        return c
+    ok = E.run_model(c['kind'], c['spec'], c['wn'], c['tables'], c.get('cia'), 'ktables', scratch, c['weights'])
+    _, _, weakest = k_elements(ok, c['weights'])
+    f = np.asarray(c['target_weakest_tau'], float) / np.maximum(weakest, 1e-300)
+    c = dict(c, tables={nm: dict(t, kcoeff=np.asarray(t['kcoeff'], float) * f[None, None, :, None])
+                        for nm, t in c['tables'].items()}, prepared=True)
+    return c
+
+
+def ref_emission_k(nus, kel, nel, w, T, mus, ws):
+    """the documented plane-parallel integral in correlated-k mode, plain numpy: the transmittance from level l to space at
+    angle mu is exp(-A_l/mu) * sum_g w_g exp(-K_lg/mu) (A: the other contributions, K: the k-coefficients, both summed over the
+    layers l..top); I = B(T_0) t_0 + sum_l B(T_l) (t_{l+1} - t_l); flux = 2 pi sum_q I_q w_q mu_q.  No transmittance is ever
+    turned into an optical depth and back."""
+    PI = E.planck_constants()[0]
+    n = len(T)
+    w = np.asarray(w, float)
+    K = np.concatenate([np.cumsum(kel[::-1], axis=0)[::-1], np.zeros((1,) + kel.shape[1:])])      # [level, wn, g]
+    A = np.concatenate([np.cumsum(nel[::-1], axis=0)[::-1], np.zeros((1, nel.shape[1]))])         # [level, wn]
+    B = np.array([E.planck_np(nus, T[l]) / PI for l in range(n)])
+    I = []
+    with np.errstate(under='ignore'):
+        for mu in mus:
+            t = np.exp(-A / mu) * (np.exp(-K / mu) * w).sum(axis=-1)
+            I.append(B[0] * t[0] + (B * (t[1:] - t[:-1])).sum(axis=0))
+        I = np.array(I)
+        wm = (np.asarray(ws, float) * np.asarray(mus, float))[:, None]
+        pos = w > 0
+        depth = A[:-1] + K[:-1][:, :, pos].min(axis=-1)           # optical depth below each layer, weakest g-point
+        sat = depth.min(axis=1) >= 10.0
+        band = EM10 * (B[sat].sum(axis=0) * PI if sat.any() else np.zeros(len(nus)))
+        under = np.array([(np.exp(-K[0] / mu) * w).sum(axis=-1) == 0.0 for mu in mus])             # [angle, wn]
+    flux = 2 * np.pi * (I * wm).sum(axis=0)
+    return dict(I=I, flux_cut=flux, flux_uncut=flux, band_flux=band * 2 * float(wm.sum()), surf=depth[0], B=B,
+                underflow=under)
+
+
+def eval_kcase(ctx, c, scratch):
+    spec, kind = c['spec'], c['kind']
+    w = np.asarray(c['weights'], float)
+    small = dict(mode='ktables', kind=kind, kclass=c.get('kclass'), tclass=c.get('tclass'), nlayers=spec['nlayers'],
+                 ngauss=spec['ngauss'], ng=len(w), nwn=len(c['wn']), cia=bool(c.get('cia')))
+    try:
+        c = prepare_kcase(c, scratch)
+        ok = E.run_model(kind, spec, c['wn'], c['tables'], c.get('cia'), 'ktables', scratch, w)
+    except Exception as e:
+        ctx.violation('ktables:raises:' + kind, 'forward model in correlated-k mode raised %r on a valid atmosphere' % (e,),
+                      dict(c, small=small))
+        return
+    case = dict(c, small=small)
+    nus, nq = ok['grid'], spec['ngauss']
+    xs, wts = np.polynomial.legendre.leggauss(nq)
+    kel, nel, weakest = k_elements(ok, w)
+    ref = ref_emission_k(nus, kel, nel, w, ok['T'], ok['mu_quads'], ok['wi_quads'])
+    # ---- correspondence: KTau.emissionK / fluxOf / eclipse (driver_c20), direct-image scaling as Emission.direct
+    d = ctx.model('C20').call('c20.emission', *pc_tokens(), C.F(np.pi), C.L(nus),
+                              C.L(ok['nonmol'], lambda kc: C.N(kc[0]) + ' ' + C.LL(kc[1].tolist())),
+                              C.LLL(ok['sigma_abs'].tolist()), C.L(w), C.L(ok['dz']), C.L(ok['dens']), C.L(ok['T']),
+                              C.L(xs), C.L(wts), C.F(ok['tstar']), C.F(ok['rp']), C.F(ok['rs']))
+    ncol = d.nat()
+    mI, mflux, mecl = [], [], []
+    for _ in range(ncol):
+        mI.append(d.list())
+        mflux.append(d.flt())
+        mecl.append(d.flt())
+    mI = np.array(mI).T.reshape(nq, ncol)
+    mflux, mecl = np.array(mflux), np.array(mecl)
+    PI = E.planck_constants()[0]
+    mfinal = mecl if kind == 'emission' else (mflux * ok['rp'] ** 2 * 2.0 * PI) / (4 * PI * (ok['dist'] * PARSEC) ** 2)
+    fac = (ok['rp'] / ok['rs']) ** 2 / ok['sed'] if kind == 'emission' else \
+        np.full(len(nus), ok['rp'] ** 2 / (2 * (ok['dist'] * PARSEC) ** 2))
+    scale = float(np.max(E.planck_np(nus, float(np.max(ok['T'])))))
+    ctx.check_close('k-mode partial_model intensity vs KTau.emissionK', ok['I'].ravel(), mI.ravel(), case, rel=1e-8,
+                    abs_=1e-12 * scale)
+    ctx.check_close('k-mode model() spectrum vs KTau.emissionK / fluxOf / eclipse | direct', ok['flux'], mfinal, case,
+                    rel=1e-8, abs_=1e-12 * scale * float(np.max(fac)))
+    ctx.check_eq('k-table weights as loaded', [float(x) for x in ok['weights']], [float(x) for x in w], small)
+    ctx.check_close('1/_mu_quads vs Emission.muInvOf', ok['muinv'], [1.0 / ((x + 1) / 2) for x in xs], small, rel=1e-12)
+    # ---- input distribution
+    un = ref['underflow']
+    nontrivial = bool(np.any((weakest > 1e-3) & (weakest < 30))) or bool(un.any())
+    ctx.case(key=('ktables', kind, spec['nlayers'], nq, c.get('tclass'), c.get('kclass'), len(w), bool(c.get('cia')))
+             if nontrivial else None,
+             sample=dict(small, impl=ok['flux'][:3], model=mfinal[:3]), bucket='ktables:class:' + str(c.get('kclass')))
+    ctx.bucket('ktables:kind:' + kind)
+    ctx.bucket('ktables:T:' + str(c.get('tclass')))
+    ctx.bucket('ktables:g-points:' + ('1' if len(w) == 1 else '2-5' if len(w) <= 5 else '6-12'))
+    ctx.bucket('ktables:surface-transmittance-underflows:' + ('all-angles-all-wavenumbers' if un.all() else
+               'all-angles-some-wavenumbers' if un.all(axis=0).any() else 'some-angles' if un.any() else 'nowhere'))
+    # ---- the property's own predicates on the real code (documented integral, hot / cold bounds, isothermal identity)
+    predicates(ctx, dict(c, kind=kind), ok, ref, small, kp='ktables:')
+
+
+def run_ktables(ctx):
+    import shutil
+    import tempfile
+    scratch = tempfile.mkdtemp(prefix='verif_c02_')
+    try:
+        for k in range(ctx.n(72, 1500)):
+            eval_kcase(ctx, gen_kcase(ctx.rng, k), scratch)
+    finally:
+        shutil.rmtree(scratch, ignore_errors=True)
+
+
 def validate_leggauss(ctx):
     for n in range(1, 17):
         x, w = np.polynomial.legendre.leggauss(n)
@@ -758,13 +950,23 @@ def run(ctx):
         eval_case(ctx, gen_case(ctx.rng, k, thorough=not ctx.quick))
     for k in range(ctx.n(80, 1500)):
         reuse_case(ctx, gen_case(ctx.rng, k, thorough=False))
+    run_ktables(ctx)
     malformed(ctx)
 
 
 def replay(ctx, case):
-    case = dict(case)
+    case = dict(case.get('case', case))      # a replays/*.json payload or a bare case
     case.pop('small', None)
     case.pop('reuse', None)       # a reuse-stream case replays as a fresh run on the final parameter values
+    if case.get('mode') == 'ktables':
+        import shutil
+        import tempfile
+        scratch = tempfile.mkdtemp(prefix='verif_c02_')
+        try:
+            eval_kcase(ctx, case, scratch)
+        finally:
+            shutil.rmtree(scratch, ignore_errors=True)
+        return
     eval_case(ctx, case)
 
 
